@@ -107,6 +107,8 @@ def check(run: Run, ctx) -> None:
     _parser.run(run, ctx, PROP, known, quick=0.5, thorough=4.0)
     # primary_response_key_order_invariant is about primaryA/primaryB: tie them to the generated code (return annotation, match arms)
     g.run_corr(run, ctx, "vf.corr.gencode", "GenCode (primary response selection, arms)", quick=0.35, thorough=2.0)
+    # generate_order_independent (order of `properties` / `required`) is about Pog.Dc: tie it to the real DataclassGenerator
+    g.run_corr(run, ctx, "vf.corr.dc", "Dc (DataclassGenerator: sorted properties, field order)", quick=0.2, thorough=2.0)
     run.cov["rule"] = (run.cov.get("rule") or "") + ("[metamorphic e2e] per seeded document: renderings {JSON, YAML block, YAML flow, YAML with merge keys (<<: *anchor)} must give byte-identical trees; YAML with integer status keys the "
                        "same manifest; 2 random permutations of schemas/paths/properties and 2 random permutations of the key order of EVERY mapping (path items, responses, content, components.parameters, ...) the same manifest (models->fields, clients->signatures); every third document shares components.parameters through $ref, two thirds declare several 2xx responses with different bodies. Distinct by document; non-trivial when >=2 schemas and >=2 operations")
     cases = []
